@@ -130,10 +130,9 @@ class _RemotePathMapper:
                 )
         return result
 
-    def invalidate_location(self, location: ExecutionLocation, path: str) -> None:
-        node = self._filesystem
-        for token in Path(path).parts:
-            node = node.children[token]
+    def _invalidate_node(
+        self, location: ExecutionLocation, node: _RemotePathNode
+    ) -> None:
         # Invalidate node
         for data_loc in node.locations.get(location.deployment, {}).get(
             location.name, set()
@@ -142,11 +141,13 @@ class _RemotePathMapper:
             node.valid_paths[location.deployment][location.name].discard(data_loc.path)
         # Propagate
         for node_child in node.children.values():
-            for data_loc in node_child.locations.get(location.deployment, {}).get(
-                location.name, set()
-            ):
-                if data_loc.data_type != DataType.INVALID:
-                    self.invalidate_location(data_loc.location, data_loc.path)
+            self._invalidate_node(location, node_child)
+
+    def invalidate_location(self, location: ExecutionLocation, path: str) -> None:
+        node = self._filesystem
+        for token in Path(path).parts:
+            node = node.children[token]
+        self._invalidate_node(location, node)
 
     def put(
         self, path: str, data_location: DataLocation, recursive: bool = False
@@ -182,8 +183,11 @@ class _RemotePathMapper:
                     available=True,
                 )
             )
-            if location.path in node.valid_paths.get(location.deployment, {}).get(
-                location.name, set()
+            if any(
+                loc.path == location.path and loc.data_type != DataType.INVALID
+                for loc in node.locations.get(location.deployment, {}).get(
+                    location.name, []
+                )
             ):
                 break
             else:
